@@ -11,17 +11,26 @@
    * Each theorem is `computed check = true` (vm_compute, inside the kernel) lifted by
      Explore.explore_sound / check_sound, which is proved once by induction over `reachable`.
    * `async : bool` quantifies over both timer-channel semantics (pre-1.23 and Go >= 1.23).
+   * Deadline changes are BROADCAST (type deadlineSignal in sess.go): `changed := X.watch()` at
+     RESET_TIMER (SWatch, a yield point: the call can be preempted between the watch and the load
+     of the deadline), `case <-changed:` in the select (RcvChanged), `X.broadcast()` in the setters
+     (PBroadcast).  The translator also compares the bodies of watch/broadcast with the text these
+     primitives were modelled from.
    * Systems (Systems.v): sys_tm = one call against an environment that may do everything
      the rest of the program can do to it, including other callers stealing its wake-up token
      and consuming data / window (hence any number of concurrent callers, for per-call safety);
      sys_1 = one caller of a kind, calls repeated; sys_n .. n = explicit product of n identical
-     callers; sys_rearm = deadline stored before the call, replaced but never cleared.
+     callers; sys_rearm = deadline stored before the call, replaced but never cleared;
+     sys_change_n .. n wake = n identical callers while the deadline they wait on is set, replaced
+     and cleared in every order (and, with wake, their wake-up event happens now and then).
+     sys_n has no deadline setter in its environment: there the yield point after watch() is left
+     out (s_gap = false) and the bundles check that no caller ever finds its generation moved.
    * `witness d inv labels` : the labelled path `labels` (found by the checker's breadth-first
      search, re-validated step by step against `next`) leads from an initial state of d to a
      state where `inv` is false.  These paths are the scripts of the harness scenarios.      *)
 From Coq Require Import List Bool PArith.
 From KV.Wait Require Import Ir GenWait Model Explore Systems WaitLemmas Fixed.
-From KV.Wait Require Import ProofsRead ProofsWrite ProofsAccept ProofsMulti ProofsFixed WaitProofs ProofsExamples.
+From KV.Wait Require Import ProofsRead ProofsWrite ProofsAccept ProofsMulti ProofsChange ProofsFixed WaitProofs ProofsExamples.
 Import ListNotations.
 
 (* The real theorem behind every `= true` below: whatever `explore` returns contains every
@@ -100,6 +109,87 @@ Theorem c13_deadline_rearm :
 Proof. exact deadline_rearm_partial. Qed.
 Print Assumptions c13_deadline_rearm.
 
+(* SEVERAL callers (the statement that was false while a deadline change was announced by ONE
+   wake-up token; true since the setters broadcast).  Goroutines blocked in the same call - Read,
+   Write, Accept (c) - while SetReadDeadline / SetWriteDeadline / Listener.SetReadDeadline store
+   every value (no deadline, a future instant, an instant already past) in every order and any number
+   of times, starting without a deadline, with a pending one or with an expired one: the classes
+   none->set, set->later, set->earlier, set->zero->set, set->past and cleared are all paths of the two
+   systems below.
+     First conjunct, ANY number of callers: one call against everything the rest of the program can
+   do to it (sys_tm: the setters, the clock, its timer, data / acknowledgements / new peers arriving,
+   Close, socket errors, and OTHER CALLERS taking the wake-up token, the data, the window room, the
+   queued session).  Because a change is broadcast, following it does not depend on winning anything
+   against the other callers, so the statement is one about each call.
+     Second conjunct, literally: the product of TWO callers (sys_change_n .. 2), every interleaving of
+   the two, the setters, the clock and the runtime's timers.  (The products of two callers with their
+   own wake-up event interleaved and of THREE callers are c13_deadline_change_seen_products in C13n.v.)
+   In EVERY reachable state and for EVERY caller:
+     inv_ok               the interpreter never left its domain;
+     inv_no_early_strong  a timeout is returned only when the deadline stored at that moment has
+                          passed (nobody returns it earlier);
+     inv_cleared          parked, nothing pending, no deadline stored: the timeout case is disabled;
+     inv_deadline_seen    parked, nothing pending, a deadline stored: the timeout case is enabled
+                          on a timer armed for THAT deadline (not for a replaced one);
+     inv_expiry_wakes /   parked, nothing pending, the stored deadline has expired: the timer's
+     inv_expiry_returns   value is in the channel and the caller's step returns the timeout, or the
+                          timer is armed for that deadline and due, so that the runtime delivers it
+                          (nobody stays parked past the deadline);
+     inv_changed_moves    whenever the signal a caller watches has been broadcast, that caller has
+                          an enabled step (every caller is told, not one).
+   "nothing pending" = no deadline change, token or queued session is waiting for that caller; a
+   caller for which something is pending has an enabled step and reaches one of these states again. *)
+Theorem c13_deadline_change_seen_multi :
+  forall (c : caller) (async : bool) (st : state),
+    (let d := sys_tm skel c async in
+     sreach d st ->
+     inv_ok st = true /\ inv_no_early_strong d st = true /\ inv_cleared d st = true /\
+     inv_deadline_seen d st = true /\ inv_expiry_wakes d st = true /\
+     inv_expiry_returns d st = true /\ inv_changed_moves d st = true) /\
+    (let d := sys_change_n skel c 2 false async in
+     sreach d st ->
+     inv_ok st = true /\ inv_no_early_strong d st = true /\ inv_cleared d st = true /\
+     inv_deadline_seen d st = true /\ inv_expiry_wakes d st = true /\
+     inv_expiry_returns d st = true /\ inv_changed_moves d st = true).
+Proof. exact deadline_change_seen_multi. Qed.
+Print Assumptions c13_deadline_change_seen_multi.
+
+(* The environment procedures run atomically in the model, so the order INSIDE a setter is a
+   statement about its skeleton: every deadline setter is straight-line code in which the
+   broadcast of a deadline's signal comes after the Store of that deadline (a setter that
+   broadcast first could wake a caller that re-loads the old value and parks again). *)
+Theorem c13_setters_store_then_broadcast : setter_order_ok skel = true.
+Proof. exact setters_store_then_broadcast. Qed.
+Print Assumptions c13_setters_store_then_broadcast.
+
+(* What the broadcast replaced, kept as a witness that the several-callers statement is not
+   vacuous: with the callers and setters of the one-token design (Fixed.v: fixed_skel FixAll2 =
+   Read / WriteBuffers before the broadcast, setters posting the data / window token) the labelled
+   paths given lead to a state where a caller is parked, nothing is pending for it and it has no
+   timer for the stored deadline - thread-modular (the call parks, a deadline is set, ANOTHER caller
+   takes the token) and in the product of two (both park, a deadline is set, the caller that gets the
+   token re-arms, the other one is left behind). *)
+Theorem c13_single_token_refuted :
+  forall (async : bool),
+    witness (sys_tm (fixed_skel FixAll2) Reader async)
+            (inv_deadline_seen (sys_tm (fixed_skel FixAll2) Reader async))
+            [LThread 0; LThread 0; LThread 0; LSetRD DFuture; LStealR] /\
+    witness (sys_tm (fixed_skel FixAll2) Writer async)
+            (inv_deadline_seen (sys_tm (fixed_skel FixAll2) Writer async))
+            [LThread 0; LThread 0; LThread 0; LSetWD DFuture; LStealW] /\
+    witness (sys_change_n (fixed_skel FixAll2) Reader 2 false async)
+            (inv_deadline_seen (sys_change_n (fixed_skel FixAll2) Reader 2 false async))
+            [LThread 0; LThread 0; LThread 0; LThread 1; LThread 1; LThread 1; LSetRD DFuture; LThread 0] /\
+    witness (sys_change_n (fixed_skel FixAll2) Writer 2 false async)
+            (inv_deadline_seen (sys_change_n (fixed_skel FixAll2) Writer 2 false async))
+            [LThread 0; LThread 0; LThread 0; LThread 1; LThread 1; LThread 1; LSetWD DFuture; LThread 0].
+Proof.
+  intro a. repeat split; apply found_witness;
+    [exact (single_token_leaves_multi_tm_read a) | exact (single_token_leaves_multi_tm_write a)
+    | exact (single_token_leaves_multi_read a) | exact (single_token_leaves_multi_write a)].
+Qed.
+Print Assumptions c13_single_token_refuted.
+
 (* ------------------------------------------------------------------------------------------
    close and socket error are broadcast *)
 
@@ -147,7 +237,7 @@ Theorem c13_single_waiter_no_lost_wakeup :
 Proof. exact single_waiter_no_lost_wakeup. Qed.
 Print Assumptions c13_single_waiter_no_lost_wakeup.
 
-(* the same with SetDeadline (which posts both tokens) as the deadline setter *)
+(* the same with SetDeadline (which stores and broadcasts both deadlines) as the deadline setter *)
 Theorem c13_single_waiter_set_deadline :
   forall (async : bool) (st : state),
     (sreach (sys_1d skel Reader async) st -> inv_single (sys_1d skel Reader async) st = true) /\
@@ -244,3 +334,12 @@ Proof. exact ex_rearm. Qed.
 Example c13_ex_multi_writer_gap :
   reaches (sys_n skel Writer 2 false) (fun st => negb (inv_multi (sys_n skel Writer 2 false) st)).
 Proof. exact ex_multi_writer_gap. Qed.
+Example c13_ex_change_multi :
+  forall c, reaches (sys_change_n skel c 2 false false) (ex_change_pending_all (sys_change_n skel c 2 false false)).
+Proof. exact ex_change_multi. Qed.
+Example c13_ex_change_followed :
+  forall c, reaches (sys_change_n skel c 2 false false) (ex_change_followed_all (sys_change_n skel c 2 false false)).
+Proof. exact ex_change_followed. Qed.
+Example c13_ex_change_tm :
+  forall c, reaches (sys_tm skel c false) (ex_change_pending_all (sys_tm skel c false)).
+Proof. exact ex_change_tm. Qed.
